@@ -63,111 +63,102 @@ theorem eval_fresh_env (fuel : Nat) (node : Node N) (input : Option (Val N)) :
 /-- Every write through a field, element or pointer in the evaluator packages, with why it
     cannot carry state from one evaluation to the next. -/
 def allowedWrites : List (String × String × String) := [
+  -- (file, receiver type of the enclosing method, what is written).  The third component names
+  -- the variable the store is rooted at by kind, not by name: `local` = a value made in this
+  -- function (make / new / literal / call result), `recv:T` = the method's receiver,
+  -- `param:τ` = a parameter of type τ, `global:x` = a package-level variable.
   -- sequences, result containers, argument vectors: allocated in the same call
-  ("eval.go", "evalNameArray", "results.values"),
-  ("eval.go", "evalPath", "seq.keepSingletons"),          -- the sequence returned by evalPathStep (fresh)
-  ("eval.go", "evalObject", "results[key]"),
-  ("eval.go", "groupItemsByKey", "results[key]"),
-  ("eval.go", "groupItemsByKey", "idx.items"),
-  ("eval.go", "buildSortInfo", "values[j]"),
-  ("eval.go", "buildSortInfo", "isNumberTerm[j]"),
-  ("eval.go", "buildSortInfo", "isStringTerm[j]"),
-  ("eval.go", "buildSortInfo", "info[i]"),
-  ("eval.go", "evalFunctionCall", "argv[i]"),
-  ("eval.go", "sequence.Append", "s.values"),
-  -- name/context setters: applied to the per-call copy made in evalFunctionCall
-  ("callable.go", "callableName.SetName", "n.name"),
-  ("callable.go", "goCallable.SetContext", "c.context"),
+  ("eval.go", "", "local.values"),
+  ("eval.go", "", "local.keepSingletons"),                 -- the sequence returned by evalPathStep (fresh)
+  ("eval.go", "", "local[]"),
+  ("eval.go", "", "local.items"),
+  ("eval.go", "sequence", "recv:sequence.values"),
+  -- name/context setters: applied to the per-call copy (fact_call_copies_builtin)
+  ("callable.go", "callableName", "recv:callableName.name"),
+  ("callable.go", "goCallable", "recv:goCallable.context"),
   -- construction of callables at registration time
-  ("callable.go", "newGoCallableParam", "param.isOpt"),
-  ("callable.go", "newGoCallableParam", "param.optType"),
-  ("callable.go", "newGoCallableParam", "ps[i]"),
-  ("callable.go", "newGoCallableParam", "param.isVar"),
-  ("callable.go", "newGoCallableParam", "param.varTypes"),
-  ("callable.go", "makeGoCallableParams", "params[i]"),
+  ("callable.go", "", "local.isOpt"),
+  ("callable.go", "", "local.optType"),
+  ("callable.go", "", "local[]"),
+  ("callable.go", "", "local.isVar"),
+  ("callable.go", "", "local.varTypes"),
   -- argument vectors built per call
-  ("callable.go", "goCallable.validateArgCount", "newargv[0]"),
-  ("callable.go", "goCallable.validateArgTypes", "argv[i]"),
-  ("callable.go", "lambdaCallable.validateArgTypes", "argv[i]"),
-  ("callable.go", "partialCallable.Call", "args[i]"),
-  ("callable.go", "regexCallable.findMatches", "matches[i]"),
-  ("callable.go", "regexCallable.findMatches", "matches[i][j]"),
-  ("callable.go", "collectMaps", "seen[v.Pointer()]"),   -- the ownership set of one transform call
+  ("callable.go", "goCallable", "local[]"),
+  ("callable.go", "goCallable", "param:[]reflect.Value[]"),
+  ("callable.go", "lambdaCallable", "param:[]reflect.Value[]"),
+  ("callable.go", "partialCallable", "local[]"),
+  ("callable.go", "regexCallable", "local[]"),
+  ("callable.go", "regexCallable", "local[][]"),
+  ("callable.go", "", "param:map[uintptr]bool[]"),         -- the ownership set of one transform call
   -- environment frames: every evaluation, block and call makes its own
-  ("env.go", "environment.bind", "s.symbols"),
-  ("env.go", "environment.bind", "s.symbols[name]"),
+  ("env.go", "environment", "recv:environment.symbols"),
+  ("env.go", "environment", "recv:environment.symbols[]"),
   -- registries: written by Compile / Register*, never by Eval
-  ("jsonata.go", "Expr.updateRegistry", "e.registry"),
-  ("jsonata.go", "Expr.updateRegistry", "e.registry[name]"),
-  ("jsonata.go", "processExts", "m[name]"),
-  ("jsonata.go", "processVars", "m[name]"),
-  ("jsonata.go", "updateGlobalRegistry", "globalRegistry[name]"),
-  -- library functions: fresh result containers
-  ("jlib/array.go", "Distinct", "visited[key]"),
-  ("jlib/array.go", "merge", "results[i]"),
-  ("jlib/array.go", "Shuffle", "results[i]"),
-  ("jlib/array.go", "Shuffle", "results[j]"),
-  ("jlib/array.go", "Zip", "vs[i]"),                     -- the variadic argument slice of this call
-  ("jlib/array.go", "Zip", "inner[j]"),
-  ("jlib/array.go", "Zip", "result[i]"),
-  ("jlib/object.go", "eachMap", "argv[i]"),
-  ("jlib/object.go", "eachStruct", "argv[j]"),
-  ("jlib/object.go", "siftMap", "argv[i]"),
-  ("jlib/object.go", "siftMap", "results[key]"),
-  ("jlib/object.go", "siftStruct", "argv[j]"),
-  ("jlib/object.go", "siftStruct", "results[key]"),
-  ("jlib/object.go", "keysMap", "results[i]"),
-  ("jlib/object.go", "keysArray", "seen[s]"),
-  ("jlib/object.go", "mergeMap", "dest[key]"),
-  ("jlib/object.go", "mergeMapFast", "dest[k]"),
-  ("jlib/object.go", "mergeStruct", "dest[field.Name]"),
-  ("jlib/string.go", "Match", "result[i]"),
-  ("jlib/string.go", "updateDecimalFormat", "format.Infinity"),
-  ("jlib/string.go", "updateDecimalFormat", "format.NaN"),
-  ("jlib/string.go", "updateDecimalFormat", "format.Percent"),
-  ("jlib/string.go", "updateDecimalFormat", "format.PerMille"),
-  ("jlib/string.go", "updateDecimalFormat", "format.DecimalSeparator"),
-  ("jlib/string.go", "updateDecimalFormat", "format.GroupSeparator"),
-  ("jlib/string.go", "updateDecimalFormat", "format.ExponentSeparator"),
-  ("jlib/string.go", "updateDecimalFormat", "format.MinusSign"),
-  ("jlib/string.go", "updateDecimalFormat", "format.ZeroDigit"),
-  ("jlib/string.go", "updateDecimalFormat", "format.OptionalDigit"),
-  ("jlib/string.go", "updateDecimalFormat", "format.PatternSeparator"),   -- a DecimalFormat made by this call
-  ("jlib/string.go", "EncodeURL", "baseURL.RawQuery"),
-  ("jlib/string.go", "callMatchFunc", "groups[i]"),
-  ("jlib/string.go", "runesToNumbers", "nums[i]")]
+  ("jsonata.go", "Expr", "recv:Expr.registry"),
+  ("jsonata.go", "Expr", "recv:Expr.registry[]"),
+  ("jsonata.go", "", "local[]"),
+  ("jsonata.go", "", "global:globalRegistry[]"),
+  -- library functions: fresh result containers, the variadic argument slice of the call
+  ("jlib/array.go", "", "local[]"),
+  ("jlib/array.go", "", "param:...reflect.Value[]"),
+  ("jlib/object.go", "", "local[]"),
+  ("jlib/object.go", "", "param:map[string]interface{}[]"),  -- mergeMap's destination, made by its caller
+  ("jlib/string.go", "", "local[]"),
+  ("jlib/string.go", "", "param:*jxpath.DecimalFormat.Infinity"),   -- the DecimalFormat made by this $formatNumber call
+  ("jlib/string.go", "", "param:*jxpath.DecimalFormat.NaN"),
+  ("jlib/string.go", "", "param:*jxpath.DecimalFormat.Percent"),
+  ("jlib/string.go", "", "param:*jxpath.DecimalFormat.PerMille"),
+  ("jlib/string.go", "", "param:*jxpath.DecimalFormat.DecimalSeparator"),
+  ("jlib/string.go", "", "param:*jxpath.DecimalFormat.GroupSeparator"),
+  ("jlib/string.go", "", "param:*jxpath.DecimalFormat.ExponentSeparator"),
+  ("jlib/string.go", "", "param:*jxpath.DecimalFormat.MinusSign"),
+  ("jlib/string.go", "", "param:*jxpath.DecimalFormat.ZeroDigit"),
+  ("jlib/string.go", "", "param:*jxpath.DecimalFormat.OptionalDigit"),
+  ("jlib/string.go", "", "param:*jxpath.DecimalFormat.PatternSeparator"),
+  ("jlib/string.go", "", "local.RawQuery")]
 
 /-- **Every write site of the evaluator is accounted for**: none writes to the parsed tree,
     to a shared built-in, or to anything else that outlives the evaluation. -/
 theorem fact_writes_accounted :
     Generated.writeSites.all (fun w => allowedWrites.contains w) = true := by decide
 
-/-- in particular nothing assigns to a field of a syntax-tree node -/
+/-- `pat` occurs in `l` as a contiguous block -/
+def hasInfix (pat : List Char) : List Char → Bool
+  | [] => pat.isEmpty
+  | c :: cs => pat.isPrefixOf (c :: cs) || hasInfix pat cs
+
+/-- in particular nothing stores through a syntax-tree node (a value of a `jparse` type),
+    whatever the variable holding it is called and whichever function does it -/
 theorem fact_no_ast_write :
-    Generated.writeSites.all (fun w =>
-      !(w.2.2 == "f.Args" || w.2.2 == "node.Args" || w.2.2 == "n.Args" || w.2.2 == "node.Steps")) = true := by
+    Generated.writeSites.all (fun w => !(hasInfix "jparse.".toList w.2.2.toList)) = true := by
   decide
 
-/-- the call site copies the shared built-in before it sets name and context on it -/
+/-- the call site copies the shared built-in before it sets name and context on it.  The traces
+    are inlined through package-local helpers, and every function that calls a setter directly
+    makes the copy first -/
 def indexOfEvent (e : String) (l : List String) : Nat := l.findIdx (· == e)
 
 theorem fact_call_copies_builtin :
     let ev := Generated.evalFunctionCallEvents
-    ev.contains "copy:*gc" = true ∧ ev.contains "addr:&c" = true ∧
-    indexOfEvent "copy:*gc" ev < indexOfEvent "call:SetName" ev ∧
-    indexOfEvent "addr:&c" ev < indexOfEvent "call:SetContext" ev ∧
-    indexOfEvent "call:SetContext" ev < indexOfEvent "call:Call" ev := by decide
+    ev.contains "copy:*" = true ∧ ev.contains "addr:&" = true ∧
+    indexOfEvent "copy:*" ev < indexOfEvent "call:SetName" ev ∧
+    indexOfEvent "copy:*" ev < indexOfEvent "call:SetContext" ev ∧
+    indexOfEvent "call:SetContext" ev < indexOfEvent "call:Call" ev ∧
+    Generated.setterSites ≠ [] ∧ Generated.setterSites.all (·.2) = true := by decide
 
-/-- the chain operator evaluates a call it builds (no write to the parsed call) -/
+/-- the chain operator calls through the same copying call path (and, by `fact_no_ast_write`,
+    does not store into the parsed call) -/
 theorem fact_chain_builds_call :
-    Generated.evalFunctionApplicationEvents.contains "call:evalFunctionCall" = true ∧
-    Generated.evalFunctionApplicationEvents.take 4 = ["call:make", "call:len", "call:append", "call:append"] := by
+    let ev := Generated.evalFunctionApplicationEvents
+    ev.contains "call:Call" = true ∧
+    indexOfEvent "copy:*" ev < indexOfEvent "call:SetName" ev ∧
+    indexOfEvent "copy:*" ev < indexOfEvent "call:SetContext" ev := by
   decide
 
 /-- each evaluation assembles a new environment on top of the base environment -/
 theorem fact_new_env_per_eval :
-    Generated.newEnvCalls.head? = some "newEnvironment(baseEnv, len(tc)+len(e.registry)+1)" ∧
-    Generated.exprEvalEvents.contains "call:newEnv" = true := by decide
+    Generated.newEnvParents = ["baseEnv"] ∧
+    Generated.exprEvalEvents.contains "call:newEnvironment" = true := by decide
 
 /-! ### non-vacuity -/
 
